@@ -32,13 +32,19 @@ def set_module_by_name(parent_module, name, child_module):
 
 def quantize(model, modules=None, **kwargs):
     # Quantization happens in-place
-    for name, m in model.named_modules():
+    qmodules = {}
+    for name, m in list(model.named_modules(remove_duplicate=False)):
         if modules is not None and m not in modules:
+            continue
+        if m in qmodules:
+            # This module is registered under several names, that must all point to the same quantized module
+            set_module_by_name(model, name, qmodules[m])
             continue
         qmodule = quantize_module(m, **kwargs)
         if qmodule is not None:
             set_module_by_name(model, name, qmodule)
             qmodule.name = name
+            qmodules[m] = qmodule
             for name, param in m.named_parameters():
                 # Save device memory by clearing parameters
                 setattr(m, name, None)
